@@ -56,7 +56,16 @@ class Run:
                                                                  str(others[0].what) if others else None))
                     trace["operands"].append(sub[0]["__side"])
                     return (dict(left) if sub[0]["__side"] == "L" else dict(right),)
+            if callee.endswith("util::get_extension") and args and isinstance(args[0], str):
+                # std::path::Path::extension by contract: the part of the file name after its last dot; none for a name
+                # without a dot or with its only dot in front (`.env`)
+                nm_ = args[0].rsplit("/", 1)[-1]
+                return (nm_.rsplit(".", 1)[1] if "." in nm_[1:] else "",)
             if callee.endswith("is_glob"):
+                # the scenario decides for the pattern of the comparison; asked about any other text (a helper looking at a part of
+                # the pattern) the question has its plain answer
+                if args and isinstance(args[0], str) and args[0] != right.get("string_value"):
+                    return ("*" in args[0] or "?" in args[0],)
                 return (is_glob,)
             for tr in ("convert_glob_to_pattern", "convert_like_to_pattern"):
                 if callee.endswith(tr):
